@@ -73,6 +73,8 @@ JAlg(e) ==
                        [] e.op \in {"reverse", "invert"} -> Rev(LA)
                        [] e.op = "substitute" -> SubstLang(Gram(e.G), [t \in {e.t} |-> LB], L)
        IN Chk(LR = expect, e.op)
+          \* the returned object must also *answer* for its own productions (cached analyses copied from an operand)
+          \cup (IF Has(e, "racc") THEN Chk(ToSet(e.racc) = { w \in ToSet(e.rwords) : w \in LR }, e.op \o ".result_contains") ELSE {})
 
 Judge(e) ==
   CASE e.op = "new" -> JNew(e)
